@@ -6,6 +6,7 @@ import (
 	"context"
 	"errors"
 	"fmt"
+	"os"
 	"runtime"
 	"sort"
 	"strings"
@@ -98,7 +99,9 @@ func errClass(err error) int {
 
 var errScripted = errors.New("scripted datastore failure")
 
-// script codes: 0 none, 1 cancelled, 2 deadline, 3 other, 4 wrapped cancelled, 5 wrapped deadline
+// script codes: 0 none, 1 cancelled, 2 deadline, 3 other, 4 wrapped cancelled, 5 wrapped deadline;
+// 6, 7, 8 are not errors but SIDE EFFECTS of a call that succeeds: while the call is in progress the
+// caller's context is cancelled (6) / reaches its deadline (7), or the server context is cancelled (8).
 func scriptErr(code int) error {
 	switch code {
 	case 1:
@@ -113,6 +116,44 @@ func scriptErr(code int) error {
 		return fmt.Errorf("rows: %w", context.DeadlineExceeded)
 	}
 	return nil
+}
+
+// manualCtx is a context whose cancellation / expiry is triggered by hand, so that it can happen at
+// an exact point INSIDE a call that received it.
+type manualCtx struct {
+	mu   sync.Mutex
+	done chan struct{}
+	err  error
+}
+
+func newManualCtx() *manualCtx { return &manualCtx{done: make(chan struct{})} }
+
+func (c *manualCtx) Deadline() (time.Time, bool) { return time.Time{}, false }
+func (c *manualCtx) Done() <-chan struct{}       { return c.done }
+func (c *manualCtx) Value(any) any               { return nil }
+func (c *manualCtx) Err() error {
+	c.mu.Lock()
+	defer c.mu.Unlock()
+	return c.err
+}
+func (c *manualCtx) kill(err error) {
+	c.mu.Lock()
+	defer c.mu.Unlock()
+	if c.err == nil {
+		c.err = err
+		close(c.done)
+	}
+}
+
+// mode: 0 live, 1 cancelled, 2 deadline exceeded
+func (c *manualCtx) mode() int {
+	switch err := c.Err(); {
+	case err == nil:
+		return 0
+	case errors.Is(err, context.Canceled):
+		return 1
+	}
+	return 2
 }
 
 // ---------------------------------------------------------------------------------------------
@@ -130,6 +171,8 @@ type fakeIter struct {
 	script  []int
 	lossy   bool
 	stopped bool
+	srvCancel func() // cancels the server context (side effect 8)
+	fxFired   int
 
 	bg      atomic.Bool // calls are made by the background goroutine: block them on the gate
 	ungated atomic.Bool
@@ -169,6 +212,24 @@ func (f *fakeIter) compute(ctx context.Context, isNext bool) (*openfgav1.Tuple, 
 	if len(f.script) > 0 {
 		code = f.script[0]
 		f.script = f.script[1:]
+	}
+	if code >= 6 { // side effect while the call is in progress; the call itself succeeds
+		f.fxFired++
+		switch code {
+		case 6:
+			if mc, ok := ctx.(*manualCtx); ok {
+				mc.kill(context.Canceled)
+			}
+		case 7:
+			if mc, ok := ctx.(*manualCtx); ok {
+				mc.kill(context.DeadlineExceeded)
+			}
+		default:
+			if f.srvCancel != nil {
+				f.srvCancel()
+			}
+		}
+		code = 0
 	}
 	if code != 0 {
 		if f.lossy && isNext && code != 3 && f.pos < len(f.items) {
@@ -230,6 +291,7 @@ type plan struct {
 
 type fakeReader struct {
 	storage.RelationshipTupleReader
+	srvCancel func()
 	mu     sync.Mutex
 	next   *plan
 	last   *fakeIter
@@ -249,6 +311,7 @@ func (r *fakeReader) open() (storage.TupleIterator, error) {
 		return nil, scriptErr(p.openErr)
 	}
 	it := newFakeIter(p.items, p.script, p.lossy)
+	it.srvCancel = r.srvCancel
 	r.last = it
 	r.all = append(r.all, it)
 	return it, nil
@@ -605,6 +668,7 @@ type liveIter struct {
 	raw     bool      // the cache layer returned the inner iterator itself
 	q       *query
 	stopped bool // Stop was called by the consumer
+	reqCtx  *manualCtx // the consumer's request context
 	atGate  bool
 	waiting int // iterator id whose singleflight call this one joined, -1 otherwise
 	bgDone  bool
@@ -629,6 +693,7 @@ type directEnv struct {
 	aborted  bool
 	lastNow  time.Time
 	joinBase int
+	skip     bool
 }
 
 func (e *directEnv) internKey(k keys.Key) int {
@@ -711,7 +776,7 @@ func (e *directEnv) opOpen(qi int, higher bool, script []int, lossy bool, openEr
 	called, last := e.reader.called, e.reader.last
 	e.reader.mu.Unlock()
 	status := 0
-	li := &liveIter{q: q, waiting: -1}
+	li := &liveIter{q: q, waiting: -1, reqCtx: newManualCtx()}
 	switch {
 	case err != nil:
 		status = 1 + errClass(err) // 3 cancelled, 4 deadline, 5 other
@@ -738,8 +803,15 @@ func (e *directEnv) opRead(id int, head bool, mode int) {
 	if li.it == nil {
 		return
 	}
-	ctx, cancel := ctxFor(mode)
-	defer cancel()
+	var ctx context.Context
+	if mode == 0 { // the request context of this consumer; it may have died during an earlier call
+		ctx = li.reqCtx
+		mode = li.reqCtx.mode()
+	} else {
+		c, cancel := ctxFor(mode)
+		defer cancel()
+		ctx = c
+	}
 	var t *openfgav1.Tuple
 	var err error
 	code := 1
@@ -823,6 +895,7 @@ func (e *directEnv) opBg(id int) {
 				}
 			}
 			if !waitJoiners(want) {
+				e.skip = true // the goroutine dump never showed it blocked: no verdict from this scenario
 				e.abort()
 			}
 		} else {
@@ -875,7 +948,7 @@ func countJoiners() int {
 
 // pollLimit bounds the polls of the goroutine dump (each dump stops the world, so the polls are
 // spaced out; the outcome never depends on the spacing, only on the goroutine eventually blocking).
-const pollLimit = 30 * time.Second
+var pollLimit = 30 * time.Second
 
 func waitJoiners(want int) bool {
 	deadline := time.Now().Add(pollLimit)
@@ -943,7 +1016,7 @@ func genScript(r *rec.Rand) []int {
 	s := make([]int, n)
 	for i := range s {
 		if r.Chance(1, 3) {
-			s[i] = rec.Pick(r, []int{1, 1, 2, 3, 3, 4, 5})
+			s[i] = rec.Pick(r, []int{1, 1, 2, 3, 3, 4, 5, 6, 6, 6, 7, 7, 8})
 		}
 	}
 	return s
@@ -960,8 +1033,8 @@ func runDirect(w *rec.Writer, d caseDesc) {
 		e.max = rec.Pick(r, []int{1, 2, 3, 3, 4, 5, 6, 8, 100, 100})
 	}
 	e.cache = newRecCache()
-	e.reader = &fakeReader{}
 	srvCtx, cancel := context.WithCancel(context.Background())
+	e.reader = &fakeReader{srvCancel: cancel}
 	e.cancel = cancel
 	defer cancel()
 	sf := &singleflight.Group{}
@@ -1122,6 +1195,15 @@ func runDirect(w *rec.Writer, d caseDesc) {
 		w.Stat("A.scenarios_with_cache_write", 1)
 	}
 	w.Stat("A.ops", len(e.ops))
+	for _, f := range e.reader.all {
+		f.mu.Lock()
+		w.Stat("A.side_effects_during_successful_inner_calls", f.fxFired)
+		f.mu.Unlock()
+	}
+	if e.skip {
+		w.Stat("A.skipped_join_not_observed", 1)
+		return
+	}
 	w.Case(d, rec.I(1), rec.I(e.variant), rec.I(e.max), rec.L(qs...), rec.L(e.ops...), rec.L(ws...), rec.I(leftover), rec.I(hung))
 }
 
@@ -1167,9 +1249,9 @@ func runStacked(w *rec.Writer, d caseDesc) {
 	r := rec.NewRand(mix(d.Seed, 2, d.Idx))
 	max := rec.Pick(r, []int{1, 2, 3, 4, 5, 8, 100, 100, 100})
 	cache := newRecCache()
-	reader := &fakeReader{}
 	srvCtx, cancel := context.WithCancel(context.Background())
 	defer cancel()
+	reader := &fakeReader{srvCancel: cancel}
 	sf := &singleflight.Group{}
 	wg := &sync.WaitGroup{}
 	cached := storagewrappers.NewCachedDatastore(srvCtx, reader, cache, max, time.Hour, sf, wg)
@@ -1386,8 +1468,12 @@ func runAdmission(w *rec.Writer, d caseDesc) {
 	res := make([]chan result, nreq)
 	cancels := make([]context.CancelFunc, nreq)
 	base := countBlocked("storageItem).unwrap")
+	if os.Getenv("C09_DEBUG") != "" && d.Idx%50 == 0 {
+		fmt.Fprintf(os.Stderr, "D idx=%d goroutines=%d base=%d\n", d.Idx, runtime.NumGoroutine(), base)
+	}
 	hung := 0
-	for i := 0; i < nreq; i++ {
+	skip := false // the goroutine dump never showed a joiner blocked in unwrap: no verdict
+	for i := 0; i < nreq && !skip; i++ {
 		ctx, cancel := context.WithCancel(context.Background())
 		cancels[i] = cancel
 		res[i] = make(chan result, 1)
@@ -1405,12 +1491,31 @@ func runAdmission(w *rec.Writer, d caseDesc) {
 			deadline := time.Now().Add(pollLimit)
 			for countBlocked("storageItem).unwrap") < base+i {
 				if time.Now().After(deadline) {
-					hung = 1
+					skip = true
+					if os.Getenv("C09_DEBUG") != "" {
+						n := runtime.Stack(stackBuf, true)
+						fmt.Fprintf(os.Stderr, "D hang idx=%d i=%d base=%d\n%s\n", d.Idx, i, base, stackBuf[:n])
+					}
 					break
 				}
 				time.Sleep(100 * time.Microsecond)
 			}
 		}
+	}
+	if skip {
+		for i := 0; i < 8; i++ {
+			select {
+			case g.gate <- struct{}{}:
+			default:
+			}
+		}
+		for _, c := range cancels {
+			if c != nil {
+				c()
+			}
+		}
+		w.Stat("D.skipped_join_not_observed", 1)
+		return
 	}
 	if creatorDead {
 		cancels[0]()
